@@ -252,6 +252,18 @@ def known_match(pid, oblig):
     return None
 
 
+def known_witness(pid, gen, w):
+    """the `known` entry that lists exactly this witness of generator `gen` (decoder, tag byte, suite family), if any"""
+    for f in load_known():
+        if f.get("status") != "known" or f.get("property") != pid or f.get("obligation") != f"replay::{gen}":
+            continue
+        m = f.get("match", {})
+        det = w.get("detail", {}) if isinstance(w, dict) else {}
+        if det.get("tag") in m.get("tags", []) and det.get("decoder") in m.get("decoders", []) and any(str(w.get("suite", "")).startswith(pfx) for pfx in m.get("suite_prefixes", [])):
+            return f
+    return None
+
+
 # --------------------------------------------------------------------------------------------- deciding
 def clause_text(vr, ref):
     return vr["main"]["clauses"].get(ref, "")
@@ -529,6 +541,27 @@ def check_property(pid, tier, seed):
                 holds, rc = False, 1
                 violations.append(("-", "replay", f"replay::{gen}", "every listed obligation of this property is discharged, but the tree differs from the verified baseline ("
                                    + why[:300] + ") and the property's generator found a failing input on the real code"))
+    # ---- generators that run on every check of this property (cheap probes of code no contract reaches: derived serde impls).  Their witnesses
+    # are split into the ones a `known` finding lists (exact generator, decoder, tag byte, suite family) and new ones; only new ones are violations
+    for g in P.get("always_generators", []):
+        rr = run_replay(["witness", g])
+        if not isinstance(rr, dict) or rr.get("error"):
+            if holds and rc == 0:
+                holds, rc = False, 2
+                log(f"UNDECIDED property={pid} reason=generator {g} did not run: " + str((rr or {}).get("error"))[:300])
+            continue
+        new_w = []
+        for w in rr.get("witness", []):
+            kf = known_witness(pid, g, w)
+            if kf:
+                if not any(k.get("id") == kf.get("id") for _, k in known_lines):
+                    known_lines.append((f"replay::{g}", kf))
+            else:
+                new_w.append(w)
+        if new_w and rc != 1:
+            holds, rc = False, 1
+            witness, gen = dict(rr, witness=new_w), g
+            violations.append(("-", "replay", f"replay::{g}", "concrete failing input on the real code, not among the known findings: " + json.dumps(new_w[:3])[:1200]))
     replay_path = None
     if holds:
         for ob, kf in known_lines:
